@@ -7,7 +7,9 @@
 (***************************************************************************)
 EXTENDS Integers, Sequences, FiniteSets, TLC, Json
 
-CONSTANT Cfg,      \* the configuration record (see BtDispatcherCore) the model-checking instance starts from
+CONSTANT KeepLog,  \* TRUE: keep the full history `log` (trace validation, behaviour generator); FALSE: only the
+                   \* summary `sm` the step assertions need, so that commuting interleavings reach the same state
+         Cfg,      \* the configuration record (see BtDispatcherCore) the model-checking instance starts from
          Emit      \* TRUE: print the history of every terminated behaviour (behaviour generator)
 
 \* The configuration is carried as a variable that never changes (D' = D) instead of a CONSTANT: a module with
@@ -27,11 +29,12 @@ VARIABLES q,        \* [src -> queue of events still inside the source]
           nextId,   \* next event id
           njobs,    \* next job id
           orders,   \* abstract exchange: [pair, at (clock at submission), filledAt (0 = open)]
-          log,      \* observable history: handler / job segments executed
+          log,      \* observable history: handler / job segments executed (only when KeepLog)
+          sm,       \* summary of the history for the step assertions: [n, maxEv, maxJob, lastJobStart, lastEvIdx, ran]
           events,   \* every event that exists (initial + pushed)
           sched,    \* every job ever scheduled: [id, when, at]
           bad       \* names of property clauses violated so far (assertions evaluated inside the actions)
-vars == <<D, q, slot, heap, clock, tasks, pool, lp, stopped, nextId, njobs, orders, log, events, sched, bad>>
+vars == <<D, q, slot, heap, clock, tasks, pool, lp, stopped, nextId, njobs, orders, log, sm, events, sched, bad>>
 
 DP == INSTANCE DispProps
 H == [log |-> log, events |-> events, sched |-> sched, orders |-> orders, clean |-> stopped /\ lp.pc = "stop"]
@@ -49,6 +52,7 @@ InitWith(cfg) ==
         /\ lp = [pc |-> "top", dt |-> 0, ev |-> NoEv, batch |-> <<>>]
         /\ nextId = 1000 /\ njobs = Len(D.jobs) + 1
         /\ orders = <<>> /\ log = <<>> /\ bad = {}
+        /\ sm = [n |-> 0, maxEv |-> 0, maxJob |-> 0, lastJobStart |-> 0, lastEvIdx |-> 0, ran |-> {}]
         /\ events = UNION {{InitEvents(s)[k] : k \in 1..Len(D.evs[s])} : s \in Srcs}
         /\ sched = {[id |-> k, when |-> D.jobs[k].when, at |-> 0] : k \in 1..Len(D.jobs)}
 
@@ -67,7 +71,7 @@ LoopTop ==
              /\ bad' = bad \cup (IF clock # 0 /\ nd < clock THEN {"C12_LoopAssert_NextDtBeforeClock"} ELSE {})
         ELSE /\ lp' = IF heap # <<>> THEN [lp EXCEPT !.pc = "drain", !.dt = PeekLast(heap)] ELSE [lp EXCEPT !.pc = "stop"]
              /\ bad' = bad
-  /\ UNCHANGED <<heap, clock, tasks, pool, stopped, nextId, njobs, orders, log, events, sched>>
+  /\ UNCHANGED <<heap, clock, tasks, pool, stopped, nextId, njobs, orders, log, sm, events, sched>>
 
 \* _dispatch_scheduled(dt): one job at a time, waiting for it before the next
 SchedStep(pcIn, pcWait, pcOut) ==
@@ -81,19 +85,19 @@ SchedStep(pcIn, pcWait, pcOut) ==
           /\ lp' = [lp EXCEPT !.pc = pcWait]
      ELSE /\ lp' = [lp EXCEPT !.pc = pcOut]
           /\ UNCHANGED <<heap, clock, tasks, pool>>
-  /\ UNCHANGED <<q, slot, stopped, nextId, njobs, orders, log, events, sched, bad>>
+  /\ UNCHANGED <<q, slot, stopped, nextId, njobs, orders, log, sm, events, sched, bad>>
 \* await self._handlers_task_pool.wait(): resumes when every task of the pool is done, collecting them
 WaitAll(pcWait, pcOut) ==
   /\ lp.pc = pcWait /\ ~stopped /\ AllDone(pool)
   /\ pool' = {} /\ lp' = [lp EXCEPT !.pc = pcOut]
-  /\ UNCHANGED <<q, slot, heap, clock, tasks, stopped, nextId, njobs, orders, log, events, sched, bad>>
+  /\ UNCHANGED <<q, slot, heap, clock, tasks, stopped, nextId, njobs, orders, log, sm, events, sched, bad>>
 
 \* _dispatch_events(dt): self._last_dt = dt; pop_while(dt) -> push
 EventsBegin ==
   /\ lp.pc = "events" /\ ~stopped
   /\ clock' = lp.dt
   /\ lp' = [lp EXCEPT !.pc = IF D.barrier THEN "popall" ELSE "pop"]
-  /\ UNCHANGED <<q, slot, heap, tasks, pool, stopped, nextId, njobs, orders, log, events, sched, bad>>
+  /\ UNCHANGED <<q, slot, heap, tasks, pool, stopped, nextId, njobs, orders, log, sm, events, sched, bad>>
 \* without the barrier: pop one event, push it (or block when the pool is full), pop the next ...
 PopOne ==
   /\ lp.pc = "pop" /\ ~stopped
@@ -101,7 +105,7 @@ PopOne ==
      /\ q' = r.q /\ slot' = r.slot
      /\ IF r.ev = NoEv THEN lp' = [lp EXCEPT !.pc = "events_wait"]
         ELSE lp' = [lp EXCEPT !.pc = "push", !.ev = r.ev]
-  /\ UNCHANGED <<heap, clock, tasks, pool, stopped, nextId, njobs, orders, log, events, sched, bad>>
+  /\ UNCHANGED <<heap, clock, tasks, pool, stopped, nextId, njobs, orders, log, sm, events, sched, bad>>
 \* with the barrier: every due event is popped before the first task is created
 RECURSIVE PopAll(_, _, _, _)
 PopAll(qq, ss, dt, acc) ==
@@ -111,12 +115,12 @@ PopBatch ==
   /\ lp.pc = "popall" /\ ~stopped
   /\ LET r == PopAll(q, slot, lp.dt, <<>>) IN
      /\ q' = r.q /\ slot' = r.slot /\ lp' = [lp EXCEPT !.pc = "pushbatch", !.batch = r.batch]
-  /\ UNCHANGED <<heap, clock, tasks, pool, stopped, nextId, njobs, orders, log, events, sched, bad>>
+  /\ UNCHANGED <<heap, clock, tasks, pool, stopped, nextId, njobs, orders, log, sm, events, sched, bad>>
 NextOfBatch ==
   /\ lp.pc = "pushbatch" /\ ~stopped
   /\ IF lp.batch = <<>> THEN lp' = [lp EXCEPT !.pc = "events_wait"]
      ELSE lp' = [lp EXCEPT !.pc = "push", !.ev = Head(lp.batch), !.batch = Tail(lp.batch)]
-  /\ UNCHANGED <<q, slot, heap, clock, tasks, pool, stopped, nextId, njobs, orders, log, events, sched, bad>>
+  /\ UNCHANGED <<q, slot, heap, clock, tasks, pool, stopped, nextId, njobs, orders, log, sm, events, sched, bad>>
 \* TaskPool.push: while len(self._tasks) >= max: wait FIRST_COMPLETED; then create_task
 Push ==
   /\ lp.pc = "push" /\ ~stopped
@@ -125,18 +129,18 @@ Push ==
      ELSE /\ tasks' = Append(tasks, NewEventTask(lp.ev))
           /\ pool' = pool \cup {Len(tasks) + 1}
           /\ lp' = [lp EXCEPT !.pc = IF D.barrier THEN "pushbatch" ELSE "pop", !.ev = NoEv]
-  /\ UNCHANGED <<q, slot, heap, clock, stopped, nextId, njobs, orders, log, events, sched, bad>>
+  /\ UNCHANGED <<q, slot, heap, clock, stopped, nextId, njobs, orders, log, sm, events, sched, bad>>
 \* the FIRST_COMPLETED wait returns: every finished task leaves the pool
 PushWake ==
   /\ lp.pc = "push_blocked" /\ ~stopped
   /\ \E i \in pool : TaskDone(tasks[i])
   /\ pool' = {i \in pool : ~TaskDone(tasks[i])}
   /\ lp' = [lp EXCEPT !.pc = "push"]
-  /\ UNCHANGED <<q, slot, heap, clock, tasks, stopped, nextId, njobs, orders, log, events, sched, bad>>
+  /\ UNCHANGED <<q, slot, heap, clock, tasks, stopped, nextId, njobs, orders, log, sm, events, sched, bad>>
 LoopStop ==
   /\ lp.pc = "stop" /\ ~stopped
   /\ stopped' = TRUE
-  /\ UNCHANGED <<q, slot, heap, clock, tasks, pool, lp, nextId, njobs, orders, log, events, sched, bad>>
+  /\ UNCHANGED <<q, slot, heap, clock, tasks, pool, lp, nextId, njobs, orders, log, sm, events, sched, bad>>
 
 (* --------------------------- handler segments --------------------------- *)
 RECURSIVE Apply(_, _, _)
@@ -167,7 +171,7 @@ RunSegment(ti, i) ==
          seg  == t.pc[i] + 1
          effs == D.prog[h][seg]
          r    == Apply([q |-> q, heap |-> heap, njobs |-> njobs, nextId |-> nextId, orders |-> orders,
-                        events |-> events, sched |-> sched, at |-> Len(log) + 1,
+                        events |-> events, sched |-> sched, at |-> sm.n + 1,
                         stop |-> FALSE, raised |-> FALSE], effs, clock)
          \* an exception ends the handler there (it is caught and logged by _call_event_handler/_execute_scheduled)
          pc2  == IF r.raised THEN Len(D.prog[h]) ELSE seg
@@ -181,13 +185,27 @@ RunSegment(ti, i) ==
         /\ q' = r.q /\ heap' = r.heap /\ njobs' = r.njobs /\ nextId' = r.nextId /\ orders' = r.orders
         /\ events' = r.events /\ sched' = r.sched
         /\ stopped' = (r.stop \/ (r.raised /\ D.stopOnErr))
-        /\ log' = Append(log, [kind |-> t.kind, ev |-> t.ev.id, job |-> t.jid, src |-> t.ev.src, when |-> t.ev.when,
-                               h |-> h, stage |-> t.st, seg |-> seg, clock |-> clock])
+        /\ log' = IF KeepLog
+                   THEN Append(log, [kind |-> t.kind, ev |-> t.ev.id, job |-> t.jid, src |-> t.ev.src, when |-> t.ev.when,
+                                     h |-> h, stage |-> t.st, seg |-> seg, clock |-> clock])
+                   ELSE log
+        /\ sm' = [n |-> sm.n + 1,
+                  maxEv |-> IF t.kind = "ev" THEN Max2(sm.maxEv, t.ev.when) ELSE sm.maxEv,
+                  maxJob |-> IF t.kind = "job" THEN Max2(sm.maxJob, t.ev.when) ELSE sm.maxJob,
+                  lastJobStart |-> IF t.kind = "job" /\ seg = 1 THEN t.ev.when ELSE sm.lastJobStart,
+                  lastEvIdx |-> IF t.kind = "ev" THEN sm.n + 1 ELSE sm.lastEvIdx,
+                  ran |-> IF t.kind = "job" /\ seg = 1 THEN sm.ran \cup {t.jid} ELSE sm.ran]
         /\ bad' = bad
              \* C12: while a handler runs the clock equals the event's time
              \cup (IF t.kind = "ev" /\ clock # t.ev.when THEN {"C12_ClockEqualsEventTime"} ELSE {})
-             \* C13: a job never runs before its time
+             \* C12: deliveries in globally non-decreasing time order
+             \cup (IF t.kind = "ev" /\ t.ev.when < sm.maxEv THEN {"C12_GlobalOrder"} ELSE {})
+             \* C13: a job never runs before its time, jobs start in non-decreasing scheduled-time order, each once,
+             \*      after all events with an earlier time and before any event with a later time
              \cup (IF t.kind = "job" /\ clock < t.ev.when THEN {"C13_NotEarly"} ELSE {})
+             \cup (IF t.kind = "job" /\ seg = 1 /\ (t.ev.when < sm.lastJobStart \/ t.ev.when < sm.maxEv) THEN {"C13_Ordered"} ELSE {})
+             \cup (IF t.kind = "ev" /\ t.ev.when < sm.maxJob THEN {"C13_Ordered"} ELSE {})
+             \cup (IF t.kind = "job" /\ seg = 1 /\ t.jid \in sm.ran THEN {"C13_AtMostOnce"} ELSE {})
              \* C03: an order is never filled by a bar whose time is <= the clock at submission
              \cup (IF \E k \in DOMAIN r.orders : k \in DOMAIN orders /\ orders[k].filledAt = 0 /\ r.orders[k].filledAt # 0
                                                   /\ r.orders[k].filledAt <= r.orders[k].at
@@ -225,6 +243,9 @@ Inv_C13_Ordered              == DP!C13_Ordered(H)
 Inv_C13_AllRan               == DP!C13_AllRan(H)
 Inv_C14_BoundedConcurrency   == DP!C14_BoundedConcurrency(H) /\ Cardinality(pool) <= D.maxc
 Inv_C03_NoLookAhead          == DP!C03_NoLookAhead(H)
+\* C13 on the summary: at a clean end every job scheduled no later than the handling of the last event ran
+Inv_C13_AllRan_Summary ==
+  (stopped /\ lp.pc = "stop") => \A j \in sched : j.at <= sm.lastEvIdx => j.id \in sm.ran
 \* C12 at the design level: a clean end leaves nothing in the sources, the slots or the pool
 Inv_C12_NothingLeft ==
   (stopped /\ lp.pc = "stop") => /\ \A s \in Srcs : q[s] = <<>> /\ slot[s] = NoEv
